@@ -298,6 +298,18 @@ def _r3(run, prog, ci):
                     run.ok('C17-R3', 'triangulation source', '%s = %s' % (a.id, norm(defs[0].value)), sample=False)
                 continue
         run.undecided('C17-R3', 'triangulation source', 'argument %s not traced to the stored vertices' % txt[:40])
+    # the stored vertex array is the voxel's own: the constructor reverses it in place, and area / centroid are computed from it later
+    from ._purity import may_be_callers_array
+    for st in rebinds:
+        run.subject('C17-R3')
+        who = may_be_callers_array(init, st.value)
+        if who:
+            run.fail('C17-R3', K + 'vertices-alias|' + who, ci.mod.relpath, st.lineno,
+                     "the vertex array is bound to %s, which can be the caller's own array '%s' (no copy is made when it already has the "
+                     "requested type and layout): the winding normalisation then reverses the caller's polygon in place, and a later write "
+                     "by the caller changes the area, centroid and volume of a voxel that was built from another polygon" % (norm(st.value)[:60], who))
+        else:
+            run.ok('C17-R3', 'vertex array owned by the voxel', norm(st.value)[:60], sample=False)
     # ... and nothing reorders the stored vertices afterwards (the winding normalisation reverses them in place)
     pos = {}
 
